@@ -8,7 +8,7 @@ BASE = json.load(open('/root/.vp/BASELINE.json'))['cmd']
 CLAIMS = {
  'C18': dict(
    technique='static error-flow analysis (go/ssa): dropped / swallowed sink errors, void-flush pairing, buffered-sink must-flush on all paths',
-   text='Decides, for every path of every function on the output write path (all methods of every zio.Writer/io.Writer implementer of the output layer, the copy loops, and their static callees; computed from the type-checked program on each run), that no error that can originate at the sink is dropped (E1), compared with nil and discarded (E2), left unfetched in a void flush API (E3), or left in an unflushed buffer (E4). This is the first sentence of the property as a shape-of-code fact; it is path-exhaustive where tests inject no sink faults at all. It does not decide that bytes form a complete readable stream, nor short-write accounting.',
+   text='Decides, for every path of every function on the output write path (all methods of every zio.Writer/io.Writer implementer of the output layer, the copy loops, and their static callees; computed from the type-checked program on each run), that no error that can originate at the sink is dropped (E1), compared with nil and discarded (E2), left unfetched in a void flush API (E3), left in an unflushed buffer (E4), lost because the Close of a wrapping writer returns nil without closing the wrapped sink (E5), or overwritten by a deferred closure that assigns the named error result unconditionally (E6). This is the first sentence of the property as a shape-of-code fact; it is path-exhaustive where tests inject no sink faults at all. It does not decide that bytes form a complete readable stream, nor short-write accounting.',
    note='Trusts go/types+go/ssa, the enumerated infallible sinks (bytes.Buffer, strings.Builder, hash.Hash; bufio sticky errors), and that an error passed to any call is handled. Interface calls are the implementer\'s own obligation (all implementers in the output layer are entry points).',
    ref='DESIGN.md §2 C18'),
 }
@@ -34,7 +34,7 @@ CLAIMS['C11'] = dict(
    ref='DESIGN.md §2 C11')
 CLAIMS['C04'] = dict(
    technique='borrowed-value ownership analysis on SSA (E-own), edge-dominance of the exact filter, type-kind coverage between sibling traversals, shared typestate rules',
-   text='Decides structural conditions behind encoding independence, for all paths: (P1) in the ZNG scanner a decoded value is kept only on the true arm of the exact filter and only a boolean true passes; (K1) every container kind zed.Walk descends (the search evaluator) is handled by the functions reachable from the buffer filter\'s FieldNameFinder; (W1) the type context only caches bytes it owns; (W2) none of the 26 Write(zed.Value) implementers retains its argument or anything derived from it without a copy; (W3) an operator that releases a pulled batch keeps none of its values without a copy; (B1) the pooled frame buffer is released exactly once and peeker bytes escape only through a copy. Does not decide equality of results across encodings, nor soundness of the buffer filter\'s string patterns.',
+   text='Decides structural conditions behind encoding independence, for all paths: (P1) in the ZNG scanner a decoded value is kept only on the true arm of the exact filter and only a boolean true passes; (K1) every container kind zed.Walk descends (the search evaluator) is handled by the functions reachable from the buffer filter\'s FieldNameFinder; (W1) the type context only caches bytes it owns; (W2) none of the 26 Write(zed.Value) implementers retains its argument or anything derived from it without a copy; (W3) an operator that releases a pulled batch keeps none of its values without a copy; (B1) the pooled frame buffer is released exactly once and peeker bytes escape only through a copy; (F1) the buffer filter compiled from a predicate over-approximates it for every combination of present/absent sub-filters (truth table over the and/or composition, opAnd/opOr evaluated with && and ||, keyword search combines value and field-name patterns); (K2/O8) caches keyed by numeric type ID (FieldNameFinder memo, MapperLookupCache) are cleared before the IDs of a new type context are looked up; (O7) the per-stream local type context is copied into each work item and never reset in place. Does not decide equality of results across encodings, nor soundness of the buffer filter\'s string patterns.',
    note='Calls leaving the package do not retain their arguments (each implementer is itself an obligation); evaluator results may alias their input; strings are copies except byteconv.UnsafeString.',
    ref='DESIGN.md §2 C04')
 CLAIMS['C10'] = dict(
@@ -74,7 +74,7 @@ CLAIMS['C19'] = dict(
    ref='DESIGN.md §2 C19')
 CLAIMS['C06'] = dict(
    technique='resolved-callee stable-sort check over the value-ordering packages, tie-break shape of the spill merge, signature-based discovery of value-ordering functions with call-graph reachability to the single comparison routine',
-   text='Decides structural conditions of sort/merge correctness: (S1) every sort call on the value-ordering path (comparator index sort, group-by release, lister object sort, …) resolves to a stable algorithm, and spill.MergeSort.Less returns `ordinal <` exactly on the branch where the comparator returned 0; (S2) every function of the runtime with signature func(zed.Value, zed.Value) int reaches expr.compareValues / Comparator.Compare (or calls a CompareFn value), so no operator orders values by a second routine; (S3) the spill reader copies a record before advancing its file. Does not decide that compareValues is a total preorder, that the native fast path agrees with it, or spill-invariance of the output.',
+   text='Decides structural conditions of sort/merge correctness: (S1) every sort call on the value-ordering path (comparator index sort, group-by release, lister object sort, …) resolves to a stable algorithm, and spill.MergeSort.Less returns `ordinal <` exactly on the branch where the comparator returned 0; (S2) every function of the runtime with signature func(zed.Value, zed.Value) int reaches expr.compareValues / Comparator.Compare (or calls a CompareFn value), so no operator orders values by a second routine; (S3) the spill reader copies a record before advancing its file; (F1) every stand-in the bulk sorter stores into its native int64 key array in place of a real value (null markers, the clamp of uint64 above MaxInt64) is tested for in the tie branch of its less function, so aliased keys fall back to the full comparison. Does not decide that compareValues is a total preorder, that the native fast path agrees with it on non-aliased keys, or spill-invariance of the output.',
    note='Value-ordering functions are recognised by signature.',
    ref='DESIGN.md §2 C06')
 CLAIMS['C07'] = dict(
@@ -89,17 +89,17 @@ CLAIMS['C08'] = dict(
    ref='DESIGN.md §2 C08')
 CLAIMS['C09'] = dict(
    technique='edge-dominance of the vectorize decision, loop-shape check of the all-objects guard, panicking-dispatch detection (type-assert chains and unchecked assertions on vector.Any) over the call graph of the auto-vectorized operators',
-   text='Decides structural conditions of vector/sequential agreement: (G1) every vectorize() in Optimizer.Vectorize is dominated by a true isScanWithVectors, which returns true only after a loop over a non-empty snapshot in which any object without a vector returns false; (X1) in the functions reachable from the auto-selected vector operators (CountByString, Sum, the vam scanner, the materializer) no dispatch on vector.Any panics for an implementer without a case and no unchecked type assertion is applied to a vector.Any — violated on today\'s tree by the prototype CountByString (two genuine known findings, reproduced). Does not decide equality of results between the runtimes.',
+   text='Decides structural conditions of vector/sequential agreement: (G1) every vectorize() in Optimizer.Vectorize is dominated by a true isScanWithVectors, which returns true only after a loop over a non-empty snapshot in which any object without a vector returns false; (X1) in the functions reachable from the auto-selected vector operators (CountByString, Sum, the vam scanner, the materializer) no dispatch on vector.Any panics for an implementer without a case and no unchecked type assertion is applied to a vector.Any — violated on today\'s tree by the prototype CountByString (two genuine known findings, reproduced); (N1) a function of runtime/vam/op that walks the per-slot Index of a dictionary vector also reads its Nulls mask. Does not decide equality of results between the runtimes.',
    note='Scope by static calls plus dispatch on vector.Any; dispatch on zed.Type/VNG metadata inside the vector cache is constrained by the VNG writer and not decided.',
    ref='DESIGN.md §2 C09')
 CLAIMS['C02'] = dict(
    technique='sibling kind-table agreement: case sets of type switches (type-checked AST) against the implementers of the switched interface computed on each run; constant tag sets between encoder and formatter',
-   text='Decides the kind-table clause of the ZSON round trip: at each dispatch site of package zson — Formatter.formatValue, formatTypeBody, formatType, formatPrimitive, formatTypeValue (type-value tags), BuildPrimitive, Analyzer.convertValue/convertAny/convertType (over the ZSON AST node kinds that some parser actually constructs) and buildValue (over analyzed value kinds) — every kind of the switched domain has a case, so whatever one side can emit the other can read (103 obligations). Does not decide what the text denotes: decorator elision, float/time/IP spelling, quoting, typedef scoping, JSON semantics; those are value-level and out of reach for static analysis.',
+   text='Decides the kind-table clause of the ZSON round trip: at each dispatch site of package zson — Formatter.formatValue, formatTypeBody, formatType, formatPrimitive, formatTypeValue (type-value tags), BuildPrimitive, Analyzer.convertValue/convertAny/convertType (over the ZSON AST node kinds that some parser actually constructs) and buildValue (over analyzed value kinds) — every kind of the switched domain has a case, so whatever one side can emit the other can read (103 obligations); (K2) the typedef name tables of both sides (Formatter.saveType: typedefs and permanent; Analyzer.enterTypeDef) are overwritten on every (re)definition, never only when the name is still unbound, so a bare type reference denotes the latest definition on both sides. Does not decide what the text denotes: decorator elision, float/time/IP spelling, quoting, typedef scoping, JSON semantics; those are value-level and out of reach for static analysis.',
    note='The domain of a switch is the set of implementers of its tag interface in the defining package that are instantiated somewhere in the module.',
    ref='DESIGN.md §2 C02')
 CLAIMS['C03'] = dict(
    technique='sibling kind-table agreement, constant-vs-type width check, dominance of section writes, source-order call-sequence agreement between Metadata and Emit of every encoder',
-   text='Decides structural conditions of the VNG round trip: (K1) NewEncoder covers every complex zed type explicitly or as a primitive column, NewBuilder and the vector cache\'s newShadow cover every vng.Metadata implementer; (B1) MaxDictSize does not exceed what the one-byte selector map can address and the dictionary is abandoned beyond it; (O1) the metadata stream is ended before its size is taken and sections are written header, metadata, data; (O2) for every encoder, Metadata (which assigns segment offsets) and Emit (which writes bytes) visit the same sub-encoders in the same order. Does not decide statistics-driven encoding choices, null runs, tag vectors or projection results.',
+   text='Decides structural conditions of the VNG round trip: (K1) NewEncoder covers every complex zed type explicitly or as a primitive column, NewBuilder and the vector cache\'s newShadow cover every vng.Metadata implementer; (B1) MaxDictSize does not exceed what the one-byte selector map can address and the dictionary is abandoned beyond it, the bound being enforced on the dictionary that results from every insert (checked after the insert, or with >= before it); (O1) the metadata stream is ended before its size is taken and sections are written header, metadata, data; (O2) for every encoder, Metadata (which assigns segment offsets) and Emit (which writes bytes) visit the same sub-encoders in the same order. Does not decide statistics-driven encoding choices, null runs, tag vectors or projection results.',
    note='Sub-encoder order is read from the source order of calls in each method.',
    ref='DESIGN.md §2 C03')
 CLAIMS['C20'] = dict(
